@@ -153,7 +153,9 @@ theorem createTailG_cons {s : St} (hc : Consistent s) (pp : Path) (n : Name) (is
       (fun _ s' => Consistent s' ∧
         (isMkdir = true → old.isSome = true → (s'.disk.nodeAt 0 (n :: pp)).isOpaqueDir = true) ∧
         (∃ X', specStat s'.disk (n :: pp) = some X' ∧ X'.view = X.view) ∧
-        (isMkdir = true → ∀ c, specStat s'.disk (c :: n :: pp) = none))
+        (isMkdir = true → ∀ c, specStat s'.disk (c :: n :: pp) = none) ∧
+        (∀ q, q ≠ n :: pp → s'.disk.nodeAt 0 q = s.disk.nodeAt 0 q) ∧
+        (∀ q, q ≠ pp → (n :: pp).isSuffixOf q = false → s'.mem q = s.mem q))
       (fun s' => Consistent s') := by
   have hl := hc.toLocal
   obtain ⟨pr, hpr, hprl, hprp, hpru, _, _, _⟩ := upper_head hc hpm hpu
@@ -233,10 +235,13 @@ theorem createTailG_cons {s : St} (hc : Consistent s) (pp : Path) (n : Name) (is
         have := leaf_of_nondir (hl.trees 0 L hup) (q := n :: pp)
           (by cases hx : L (n :: pp) <;> simp_all [Node.isAbsent, Node.isDir]) c
         simpa [Disk.nodeAt, Disk.layer, hup] using this
-      refine ⟨hcf, fun _ h => (by cases h), ⟨X, ?_, rfl⟩, fun _ c => ?_⟩
+      refine ⟨hcf, fun _ h => (by cases h), ⟨X, ?_, rfl⟩, fun _ c => ?_, fun q hq => by rw [hnf, if_neg hq],
+        fun q hq1 hq2 => ?_⟩
       · rw [specStat_upper_single (ri := childReal pr n) hcf hmf rfl (by simp [hri]) (by simp [hri]) (by simp [hri]), hnf]; simp
       · refine specStat_child_upper_single (ri := childReal pr n) hcf hmf rfl (by simp [hri]) (by simp [hri]) c ?_
         rw [hnf, if_neg (cons_ne_self c (n :: pp))]; exact hleafL c
+      · have hq3 : q ≠ n :: pp := by intro h; rw [h, below_self] at hq2; cases hq2
+        rw [hm2, hm1, insertedMem_apply, if_neg hq1, if_neg hq3, hq2]; rfl
   | some o =>
     obtain ⟨hom, how⟩ := hold
     obtain ⟨pm', hpm', hnk⟩ := hl.reach n pp o hom
@@ -381,11 +386,14 @@ theorem createTailG_cons {s : St} (hc : Consistent s) (pp : Path) (n : Name) (is
         rw [hm4, hm3, hmem2, insertedMem_apply]; simp [cons_ne_self]
       have hnf : ∀ q, s4.disk.nodeAt 0 q = if q = n :: pp then .dir mode 1 0 else s.disk.nodeAt 0 q := by
         intro q; rw [hdisk4, nodeAt_setUpper _ _ _ hu]; simp
-      refine ⟨hcf, fun _ _ => ?_, ⟨.dir mode 1 0, ?_, by rw [hXd]; rfl⟩, fun _ c => ?_⟩
+      refine ⟨hcf, fun _ _ => ?_, ⟨.dir mode 1 0, ?_, by rw [hXd]; rfl⟩, fun _ c => ?_, fun q hq => by rw [hnf, if_neg hq],
+        fun q hq1 hq2 => ?_⟩
       · rw [hnf]; simp [Node.isOpaqueDir]
       · rw [specStat_upper_single (ri := childReal pr n) hcf hmf rfl (by simp [hri]) (by simp [hri]) (by simp [hri]), hnf]; simp
       · refine specStat_child_upper_single (ri := childReal pr n) hcf hmf rfl (by simp [hri]) (by simp [hri]) c ?_
         rw [hnf, if_neg (cons_ne_self c (n :: pp))]; exact hleafL c
+      · have hq3 : q ≠ n :: pp := by intro h; rw [h, below_self] at hq2; cases hq2
+        rw [hm4, hm3, hmem2, insertedMem_apply, if_neg hq1, if_neg hq3, hq2]; rfl
     | false =>
       simp only [Bool.false_eq_true, if_false]
       obtain ⟨s3, hadd, hd3, hm3⟩ := addUpperInode_ok' (s := s2) (childReal pr n) true (by rw [hmem2]; exact hom)
@@ -419,9 +427,12 @@ theorem createTailG_cons {s : St} (hc : Consistent s) (pp : Path) (n : Name) (is
         rw [hm3, hmem2]; simp [Mem.set]
       have hnf : ∀ q, s3.disk.nodeAt 0 q = if q = n :: pp then X else s.disk.nodeAt 0 q := by
         intro q; rw [hd3, hdisk2, nodeAt_setUpper _ _ _ hu]; simp
-      refine ⟨hcf, fun h => (by cases h), ⟨X, ?_, rfl⟩, fun h => (by cases h)⟩
-      rw [specStat_upper_single (ri := childReal pr n) hcf hmf (by simp [addUpperNode]) (by simp [hri]) (by simp [hri]) (by simp [hri]), hnf]
-      simp
+      refine ⟨hcf, fun h => (by cases h), ⟨X, ?_, rfl⟩, fun h => (by cases h), fun q hq => by rw [hnf, if_neg hq],
+        fun q hq1 hq2 => ?_⟩
+      · rw [specStat_upper_single (ri := childReal pr n) hcf hmf (by simp [addUpperNode]) (by simp [hri]) (by simp [hri]) (by simp [hri]), hnf]
+        simp
+      · have hq3 : q ≠ n :: pp := by intro h; rw [h, below_self] at hq2; cases hq2
+        rw [hm3, hmem2]; simp [Mem.set, hq3]
 
 theorem createTail_cons {s : St} (hc : Consistent s) (pp : Path) (n : Name) (isMkdir : Bool)
     (old : Option MNode) (meth : Method) (X : Node) (hX : NewEntry isMkdir X)
@@ -434,9 +445,13 @@ theorem createTail_cons {s : St} (hc : Consistent s) (pp : Path) (n : Name) (isM
         (isMkdir = true → old.isSome = true → (s'.disk.nodeAt 0 (n :: pp)).isOpaqueDir = true) ∧
         (∃ X', specStat s'.disk (n :: pp) = some X' ∧ X'.view = X.view) ∧
         (isMkdir = true → ∀ c, specStat s'.disk (c :: n :: pp) = none))
-      (fun s' => Consistent s') :=
-  createTailG_cons hc pp n isMkdir old (fun pr => pr.mkNode meth n X) X hX (mkLike_mkNode meth n X)
+      (fun s' => Consistent s') := by
+  have := createTailG_cons hc pp n isMkdir old (fun pr => pr.mkNode meth n X) X hX (mkLike_mkNode meth n X)
     (fun _ _ => ⟨trivial, trivial⟩) hpm hpu hlo hold
+  show Outcome (createTailG pp n isMkdir old (fun pr => pr.mkNode meth n X) s) _ _
+  cases hres : createTailG pp n isMkdir old (fun pr => pr.mkNode meth n X) s with
+  | ok u s' => rw [hres] at this; exact ⟨this.1, this.2.1, this.2.2.1, this.2.2.2.1⟩
+  | err e s' => rw [hres] at this; exact this
 
 /-- `copy_node_up` with everything it guarantees on success -/
 theorem copyNodeUp_spec (p : Path) (s : St) (hc : Consistent s) :
